@@ -121,18 +121,18 @@ def myrsi(n, xs):
 
 # ---------------------------------------------------------------- C06
 @per_step
-def cti_full(n, h):
-    """Pearson correlation of the window with its index; only meaningful on full windows (else 'skip')"""
-    if len(h) < n:
-        return "skip"
+def cti(n, h):
+    """Pearson correlation of the values present in the window with their index"""
     w = h[-n:]
-    sx, sy = sum(w), sum(range(n))
-    sxx, syy = sum(x * x for x in w), sum(i * i for i in range(n))
+    k = len(w)
+    sx, sy = sum(w), sum(range(k))
+    sxx, syy = sum(x * x for x in w), sum(i * i for i in range(k))
     sxy = sum(x * i for i, x in enumerate(w))
-    vx, vy = n * sxx - sx * sx, n * syy - sy * sy
+    vx, vy = k * sxx - sx * sx, k * syy - sy * sy
     if vx > 0 and vy > 0:
-        return (n * sxy - sx * sy) / S.ssqrt(vx * vy)
+        return max(F(-1), min(F(1), (k * sxy - sx * sy) / S.ssqrt(vx * vy)))
     return F(0)
+cti_full = cti
 def net(n, xs):
     out, prev = [], None
     for t in range(len(xs)):
